@@ -517,7 +517,20 @@ def shrink(case):
             yield dict(case, calls=calls[:i] + [dict(c, script=s[:j] + s[j + 1:])] + calls[i + 1:], abs=False)
 
 
-PREDICATES = {}
+def _listener_in_handler(case, what, m):
+    """the failure is about what a listener registered with request.on() inside a handler heard, and the case has
+    such a handler next to another thread"""
+    if case.get('kind') != 'arr' or '(listen)' not in str(what) or len(case.get('calls', [])) < 2:
+        return False
+
+    def walk(c):
+        if c.get('construct'):
+            return False
+        return any(a[0] == 'listen' or (a[0] == 'call' and walk(a[1])) for a in c['script'])
+    return any(walk(c) for c in case['calls'])
+
+
+PREDICATES = {'listener_registered_in_handler': _listener_in_handler}
 
 MANIFEST = dict(
     text=('Proof (partial — the logic of the isolation, not the interpreter): theorems C08_noninterference, C08_frame and '
